@@ -8,23 +8,23 @@ package kubernetes
 //@ pure kubeShares(m int64) int64 = (m*1024)/1000 < 2 ? 2 : ((m*1024)/1000 > 262144 ? 262144 : (m*1024)/1000)
 //@ pure within(a int64, b int64, d int64) bool = a - b <= d && b - a <= d
 
-//@ func MilliCPUToShares arith-checked
+//@ func MilliCPUToShares arith-checked functional
 //@   requires 0 <= milliCPU && milliCPU <= 1 << 50
 //@   ensures[C20,C03] milliCPU == 0 ==> result == 2
 //@   ensures[C20,C03] milliCPU != 0 ==> int64(result) == kubeShares(milliCPU)
 //@   ensures[C20,C03] 2 <= result && result <= 262144
 
-//@ func MilliCPUToQuota arith-checked
+//@ func MilliCPUToQuota arith-checked functional
 //@   requires 0 <= milliCPU && milliCPU <= 1 << 40
 //@   ensures[C20] milliCPU == 0 ==> quota == 0 && period == 0
 //@   ensures[C20] milliCPU != 0 ==> period == 100000 && quota == (milliCPU * 100 < 1000 ? 1000 : milliCPU * 100)
 
-//@ func SharesToMilliCPU
-//@   requires 2 <= shares && shares <= 262144
+//@ func SharesToMilliCPU functional
+//@   requires 0 <= shares && shares <= 1 << 40
 //@   ensures[C20] shares == 2 ==> result == 0
 //@   ensures[C20] shares != 2 ==> within(1024 * result, 1000 * shares, 512)
 
-//@ func QuotaToMilliCPU
+//@ func QuotaToMilliCPU functional
 //@   requires 0 <= quota && quota <= 1 << 40 && 0 <= period && period <= 1 << 30
 //@   ensures[C20] (quota == 0 || period == 0) ==> result == 0
 //@   ensures[C20] quota != 0 && period != 0 ==> within(result * period, quota * 1000, period / 2 + 1)
